@@ -67,73 +67,7 @@ func rulesC01(c *Ctx) {
 
 	// ---- C01.b available coherence
 	c.Rule("C01.b", "in every Node method each mutation of total/occupied/allocated is followed on every path by refreshAvailableResource() or the mirrored update of availableResource with the same operand; each insert/delete on Node.allocations is paired with the resource update")
-	nMut := 0
-	for _, fld := range []string{"totalResource", "occupiedResource", "allocatedResource"} {
-		f := p.Field("objects.Node." + fld)
-		if f == nil {
-			continue
-		}
-		for _, w := range p.FieldWrites(f) {
-			if w.Kind == "compositelit" || w.Kind == "mutcall:Prune" {
-				continue
-			}
-			nMut++
-			key := "ledger " + fld + " " + w.Kind + " in " + w.Fn.Name
-			// operand and sign of the mutation
-			var operand ast.Expr
-			sign := 0 // +1 usage grows, -1 usage shrinks, 0 unknown (needs full refresh)
-			switch {
-			case w.Kind == "mutcall:AddTo":
-				operand, sign = w.Arg, +1
-			case w.Kind == "mutcall:SubFrom":
-				operand, sign = w.Arg, -1
-			case w.Kind == "assign":
-				if call, ok := unparen(w.Arg).(*ast.CallExpr); ok && len(call.Args) == 2 {
-					if base, isF := p.fieldSel(call.Args[0], "objects.Node."+fld); isF && base != nil {
-						if p.IsCall(call, "resources.Add") {
-							operand, sign = call.Args[1], +1
-						} else if p.IsCall(call, "resources.Sub") {
-							operand, sign = call.Args[1], -1
-						}
-					}
-				}
-			}
-			if fld == "totalResource" {
-				sign = 0 // capacity changes always need the full refresh
-			}
-			st := p.StateAt(w.Fn, w.Node)
-			isB := func(n ast.Node) bool {
-				call, ok := n.(*ast.CallExpr)
-				if ok && p.IsCall(call, "objects.Node.refreshAvailableResource") {
-					return true
-				}
-				if ok && sign != 0 && operand != nil {
-					want := "resources.Resource.SubFrom"
-					if sign < 0 {
-						want = "resources.Resource.AddTo"
-					}
-					if p.IsCall(call, want) && len(call.Args) == 1 {
-						if _, isAvail := p.fieldSel(Recv(call), "objects.Node.availableResource"); isAvail {
-							st2 := p.StateAt(w.Fn, call)
-							if p.Same(T(call.Args[0], st2), T(operand, st)) {
-								return true
-							}
-						}
-					}
-				}
-				if as, ok := n.(*ast.AssignStmt); ok && w.Fn.Name == "objects.NewNode" {
-					for _, l := range as.Lhs {
-						if _, isAvail := p.fieldSel(l, "objects.Node.availableResource"); isAvail {
-							return true
-						}
-					}
-				}
-				return false
-			}
-			b, why := p.FollowedBy(w.Fn, w.Node, isB)
-			c.Check("C01.b", key, w.Node, b != nil, "mutation of Node.%s is not followed on every path by refreshAvailableResource() or the mirrored availableResource update (%s)", fld, why)
-		}
-	}
+	nMut := checkAvailableCoherence(c, "C01.b", "")
 	c.Floor("C01.b", "mutations of total/occupied/allocated", nMut, 9)
 	// allocations map ↔ resource booking
 	if f := p.Field("objects.Node.allocations"); f != nil {
@@ -439,4 +373,79 @@ func rulesC01(c *Ctx) {
 		}
 		c.Floor("C01.g", "non-nil returns of PartitionContext.allocate", n, 1)
 	}
+}
+
+// checkAvailableCoherence implements C01.b (every mutation of total/occupied/allocated is followed
+// by the matching update of available); onlyFn restricts it to one function (used by C12 for the
+// forced add of the recovery path).
+func checkAvailableCoherence(c *Ctx, rule string, onlyFn string) int {
+	p := c.p
+	nMut := 0
+	for _, fld := range []string{"totalResource", "occupiedResource", "allocatedResource"} {
+		f := p.Field("objects.Node." + fld)
+		if f == nil {
+			continue
+		}
+		for _, w := range p.FieldWrites(f) {
+			if w.Kind == "compositelit" || w.Kind == "mutcall:Prune" || (onlyFn != "" && w.Fn.Name != onlyFn) {
+				continue
+			}
+			nMut++
+			key := "ledger " + fld + " " + w.Kind + " in " + w.Fn.Name
+			// operand and sign of the mutation
+			var operand ast.Expr
+			sign := 0 // +1 usage grows, -1 usage shrinks, 0 unknown (needs full refresh)
+			switch {
+			case w.Kind == "mutcall:AddTo":
+				operand, sign = w.Arg, +1
+			case w.Kind == "mutcall:SubFrom":
+				operand, sign = w.Arg, -1
+			case w.Kind == "assign":
+				if call, ok := unparen(w.Arg).(*ast.CallExpr); ok && len(call.Args) == 2 {
+					if base, isF := p.fieldSel(call.Args[0], "objects.Node."+fld); isF && base != nil {
+						if p.IsCall(call, "resources.Add") {
+							operand, sign = call.Args[1], +1
+						} else if p.IsCall(call, "resources.Sub") {
+							operand, sign = call.Args[1], -1
+						}
+					}
+				}
+			}
+			if fld == "totalResource" {
+				sign = 0 // capacity changes always need the full refresh
+			}
+			st := p.StateAt(w.Fn, w.Node)
+			isB := func(n ast.Node) bool {
+				call, ok := n.(*ast.CallExpr)
+				if ok && p.IsCall(call, "objects.Node.refreshAvailableResource") {
+					return true
+				}
+				if ok && sign != 0 && operand != nil {
+					want := "resources.Resource.SubFrom"
+					if sign < 0 {
+						want = "resources.Resource.AddTo"
+					}
+					if p.IsCall(call, want) && len(call.Args) == 1 {
+						if _, isAvail := p.fieldSel(Recv(call), "objects.Node.availableResource"); isAvail {
+							st2 := p.StateAt(w.Fn, call)
+							if p.Same(T(call.Args[0], st2), T(operand, st)) {
+								return true
+							}
+						}
+					}
+				}
+				if as, ok := n.(*ast.AssignStmt); ok && w.Fn.Name == "objects.NewNode" {
+					for _, l := range as.Lhs {
+						if _, isAvail := p.fieldSel(l, "objects.Node.availableResource"); isAvail {
+							return true
+						}
+					}
+				}
+				return false
+			}
+			b, why := p.FollowedBy(w.Fn, w.Node, isB)
+			c.Check(rule, key, w.Node, b != nil, "mutation of Node.%s is not followed on every path by refreshAvailableResource() or the mirrored availableResource update (%s)", fld, why)
+		}
+	}
+	return nMut
 }
